@@ -32,9 +32,21 @@ TEXT = {
               "path, and the handler receives the includer's current variables (include_resolves); a non-string argument makes "
               'the include node fail with an error located at the tag (include_nonstring_err); the handler renderFileWith fails '
               'with the plain error notExist when the file is neither on disk nor cached (include_missing_err) and with the '
-              'located compile error when the source on disk does not compile (include_inner_compile_err: compile errors only) -- '
-              'that the include node wraps these into a SourceError at the tag, and a render-time error inside the included '
-              'file, are not theorems (error table of the incl stream); for a file that is read, the cache is irrelevant, and '
+              'located compile error when the source on disk does not compile (include_inner_compile_err). Errors through include: a handler '
+              'failure that is not a parser.Error becomes an error located at the include tag of the INCLUDING template (tag line, template '
+              'path) with the handler\'s error as cause, for every handler (include_plain_err_located) - a file neither on disk nor cached '
+              '(include_missing_located) and a read error (include_read_err_located), at every include depth; a located error of the handler '
+              'leaves the include node as WrapError(e, tag), which is e itself whenever e has a line or a path '
+              '(include_located_err_passes); a file that is found and does not compile fails the render with its compile error, lines '
+              'counted from the tag\'s line (include_compile_err_located); a render-time error inside the file (Proofs.C14Errors, '
+              'include_render_err_located): the file is found and compiles at the tag\'s line to root, rendering root with the includer\'s '
+              'variables fails with e - then e is a located error, located at firstFailure of root (C07: the first failing construct OF THE '
+              'FILE), and the include node fails with WrapError(e, tag) = e when e has a line or a path: the error is not re-located at the '
+              'include tag; from the bytes of a file without include tags (include_render_err_at_file_token): e points at a tag or object '
+              'token of the file, e.line = tag line + newlines of the file before that token, and e names the path of the INCLUDING '
+              'template, not the file\'s name (RenderFile compiles with the tag\'s SourceLoc); a break/continue that no loop of the file '
+              'consumed is handed to the including template, located at its tag in the file, and nothing is inserted '
+              '(include_sentinel_passes); for a file that is read, the cache is irrelevant, and '
               'a cached source of a file that does not exist acts as that file\'s content (disk_over_cache, cache_fallback); for a '
               "file on disk that compiles and renders normally the handler returns exactly the render of the file's content with the "
               'current variables (include_equiv); fuel n+1 runs the handler with the fuel-n handler inside (incFuel_succ, the '
@@ -50,9 +62,11 @@ TEXT = {
               'include, inlined output, error table (disk-before-cache is built into the layout lookup the first two use).'),
     "design_ref": 'DESIGN.md 6 C14',
     "note": NOTE + ('Include depth is bounded by fuel 8 in the driver; a cyclic include is `unmodelled` there and judged by the oracle '
-              'alone. No theorem covers a render-time error inside an included file or the SourceError the include node makes '
-              'of a handler failure (incl error table only), nor a read error other than not-exist (a name that resolves to a '
-              'directory: only the both-fail agreement with the reference include).'),
+              'alone. The error theorems are about the model\'s handler; on the real code the location of include errors is compared by the '
+              'incl and errloc streams (render lines) and checked by the incl error table. The model\'s read error other than not-exist '
+              '(include_read_err_located) is not produced by any stream: a name that resolves to a directory is judged by the both-fail '
+              'agreement with the reference include only. The path an error from an included file names is the including template\'s - '
+              'this is what the code does, and it is recorded as an interpretation, not flagged.'),
     "technique": ('Lean 4 proof (unfolding of the include handler of the render model) + model/implementation correspondence + '
               'differential oracle against a reference include'),
 }
